@@ -343,3 +343,149 @@ Proof.
 Qed.
 
 End NoAuthOut.
+
+(* ---------- the canonical form satisfies the structural invariant ---------- *)
+Lemma wf_qf_generic (A P : list N) q f u :
+  ser u = (A ++ P) ++ qf_text q f -> path_start u = nlen A ->
+  query_start u = qf_qs (nlen (A ++ P)) q -> fragment_start u = qf_fs (nlen (A ++ P)) q f ->
+  forallb (fun c => negb ((c =? 63) || (c =? 35))) P = true -> opt_clean T_QUERY q ->
+  wf_query_fragment u = true.
+Proof.
+  intros Es Ep Eq Ef HP Hq. unfold wf_query_fragment. rewrite Es, Ep, Eq, Ef.
+  destruct q as [x|]; destruct f as [y|];
+    cbn [qf_qs qf_fs qf_text qf_qtext qf_ftext opt_clean] in *; unfold qf_text; cbn [qf_qtext qf_ftext].
+  - assert (forallb (fun c => negb (c =? 35)) x = true) as Hx.
+    { apply (forallb_impl not_tnl_hash); [|exact (clean_forallb _ _ x kept_QUERY_sat Hq)].
+      intros c Hc. unfold not_tnl_hash in Hc. apply andb_true_iff in Hc. tauto. }
+    repeat (apply andb_true_iff; split).
+    + rewrite nlen_app. lia.
+    + cbn [app]. apply byte_eqb_app.
+    + rewrite !nlen_app. lia.
+    + replace ((A ++ P) ++ (63 :: x) ++ 35 :: y) with (((A ++ P) ++ 63 :: x) ++ 35 :: y) by (rewrite <- !app_assoc; reflexivity).
+      rewrite <- nlen_app. apply byte_eqb_app.
+    + rewrite nlen_cons. lia.
+    + rewrite nlen_app. replace (nlen A + nlen P - nlen A) with (nlen P) by lia.
+      rewrite <- !app_assoc. rewrite nskipn_app_len. rewrite nfirstn_app_len. exact HP.
+    + rewrite nlen_cons. replace (nlen (A ++ P) + (1 + nlen x) - (nlen (A ++ P) + 1)) with (nlen x) by lia.
+      rewrite nskipn_app_add. cbn [app]. change (nskipn 1 (63 :: x ++ 35 :: y)) with (x ++ 35 :: y).
+      rewrite nfirstn_app_len. exact Hx.
+  - assert (forallb (fun c => negb (c =? 35)) x = true) as Hx.
+    { apply (forallb_impl not_tnl_hash); [|exact (clean_forallb _ _ x kept_QUERY_sat Hq)].
+      intros c Hc. unfold not_tnl_hash in Hc. apply andb_true_iff in Hc. tauto. }
+    rewrite app_nil_r. repeat (apply andb_true_iff; split); try reflexivity.
+    + rewrite nlen_app. lia.
+    + apply byte_eqb_app.
+    + rewrite nlen_app. replace (nlen A + nlen P - nlen A) with (nlen P) by lia.
+      rewrite <- !app_assoc. rewrite nskipn_app_len. rewrite nfirstn_app_len. exact HP.
+    + rewrite nskipn_app_add. change (nskipn 1 (63 :: x)) with x. exact Hx.
+  - cbn [app]. rewrite N.add_0_r. repeat (apply andb_true_iff; split); try reflexivity.
+    + rewrite nlen_app. lia.
+    + apply byte_eqb_app.
+    + rewrite nlen_app. replace (nlen A + nlen P - nlen A) with (nlen P) by lia.
+      rewrite <- !app_assoc. rewrite nskipn_app_len. rewrite nfirstn_app_len. exact HP.
+  - cbn [app]. rewrite app_nil_r. repeat (apply andb_true_iff; split); try reflexivity.
+    rewrite nlen_app. replace (nlen A + nlen P - nlen A) with (nlen P) by lia.
+    rewrite nskipn_app_len. rewrite nfirstn_all by lia. exact HP.
+Qed.
+
+Lemma path_text_no_qh segs last : forallb good_seg segs = true -> good_seg last = true ->
+  forallb (fun c => negb ((c =? 63) || (c =? 35))) (path_text segs last) = true.
+Proof.
+  intros Hs Hl.
+  assert (forall s, good_seg s = true -> forallb (fun c => negb ((c =? 63) || (c =? 35))) s = true) as G.
+  { intros s H. apply (forallb_impl seg_char); [|apply good_seg_chars; exact H].
+    intros c Hc. unfold seg_char, is_qh in Hc. apply andb_true_iff in Hc. tauto. }
+  unfold path_text. cbn [forallb]. replace (negb ((47 =? 63) || (47 =? 35))) with true by reflexivity. cbn [andb].
+  rewrite forallb_app, (G last Hl), andb_true_r.
+  induction segs as [|s segs IH]; [reflexivity|].
+  cbn [forallb] in Hs. apply andb_true_iff in Hs. destruct Hs as [H1 H2].
+  unfold segs_text. cbn [map concat]. fold (segs_text segs). rewrite !forallb_app. rewrite (G s H1), (IH H2). reflexivity.
+Qed.
+
+Lemma noauth_url_wf sch segs last q f : noauth_ok sch segs last q f ->
+  wf_b (noauth_url sch (path_text segs last) q f) = true
+  /\ cannot_be_a_base (noauth_url sch (path_text segs last) q f) = Some false
+  /\ ascii (noauth_ser sch (path_text segs last) q f).
+Proof.
+  intros K. destruct K as [nk_sch0 nk_ns0 nk_segs0 nk_last0 nk_q0 nk_f0 nk_b2 nk_bq0 nk_bf0].
+  unfold scheme_canon in nk_sch0. apply andb_true_iff in nk_sch0. destruct nk_sch0 as [Hhead Hall].
+  set (T := path_text segs last) in *. set (body := segs_text segs ++ last).
+  assert (T = 47 :: body) as ET by reflexivity.
+  set (M := marker_of T). set (A := sch ++ [58]).
+  assert (nlen A = nlen sch + 1) as EA by (unfold A; rewrite nlen_app; reflexivity).
+  assert (noauth_ser sch T q f = ((A ++ M) ++ T) ++ qf_text q f) as Eser.
+  { unfold noauth_ser, noauth_pre. fold A M. rewrite <- !app_assoc. reflexivity. }
+  assert (starts_with s_ss (M ++ T ++ qf_text q f) = false) as Hno.
+  { unfold M, marker_of. rewrite ET. destruct (starts_with s_ss (47 :: body)) eqn:Ess; [reflexivity|].
+    cbn [app]. unfold s_ss in *. cbn [starts_with] in *. replace (47 =? 47) with true in * by reflexivity. cbn [andb] in *.
+    destruct body as [|b0 b']; [|cbn [app]; exact Ess].
+    cbn [app]. unfold qf_text. destruct q; destruct f; reflexivity. }
+  assert (starts_with [47] (M ++ T ++ qf_text q f) = true) as Hsl.
+  { unfold M, marker_of. rewrite ET. destruct (starts_with s_ss (47 :: body)); reflexivity. }
+  split; [|split].
+  - unfold wf_b. apply andb_true_iff. split; [apply andb_true_iff; split|].
+    + unfold wf_scheme, noauth_url. cbn [ser scheme_end]. unfold noauth_ser, noauth_pre.
+      repeat (apply andb_true_iff; split).
+      * destruct sch; [discriminate|]. unfold nlen. cbn [length]. lia.
+      * destruct sch as [|c s]; [discriminate|]. cbn [app]. unfold is_alpha. rewrite Hhead. apply orb_true_r.
+      * rewrite <- !app_assoc. rewrite nfirstn_app_len.
+        apply (forallb_impl scheme_out_char); [exact scheme_out_char_scheme_char | exact Hall].
+      * rewrite <- !app_assoc. cbn [app]. apply byte_eqb_app.
+    + assert (has_authority_b (noauth_url sch T q f) = false) as Hna.
+      { unfold has_authority_b, noauth_url. cbn [ser scheme_end]. unfold noauth_ser, noauth_pre. fold M.
+        rewrite <- !app_assoc. rewrite nskipn_app_len. unfold s_css. cbn [app starts_with].
+        replace (58 =? 58) with true by reflexivity. cbn [andb]. exact Hno. }
+      rewrite Hna. unfold wf_no_authority, noauth_url.
+      cbn [ser scheme_end username_end host_start host_end hosti port path_start]. fold A M.
+      rewrite Eser. rewrite !nlen_app. cbn [hi_eqb].
+      replace (nlen A =? nlen sch + 1) with true by lia.
+      replace (nlen A + nlen M <=? nlen A + nlen M + nlen T + nlen (qf_text q f)) with true by lia. cbn [andb].
+      unfold M, marker_of. rewrite ET. destruct (starts_with s_ss (47 :: body)) eqn:Ess.
+      * apply orb_true_iff. right. repeat (apply andb_true_iff; split).
+        -- unfold nlen at 2. cbn [length]. lia.
+        -- replace (nlen sch + 1) with (nlen A) by lia. rewrite <- !app_assoc. cbn [app]. apply byte_eqb_app.
+        -- replace (nlen sch + 2) with (nlen (A ++ [47])) by (rewrite nlen_app; unfold nlen at 2; cbn [length]; lia).
+           replace (((A ++ [47; 46]) ++ 47 :: body) ++ qf_text q f) with ((A ++ [47]) ++ 46 :: (47 :: body) ++ qf_text q f)
+             by (rewrite <- !app_assoc; reflexivity).
+           apply byte_eqb_app.
+        -- replace (nlen A + nlen [47; 46]) with (nlen (A ++ [47; 46])) by (rewrite nlen_app; reflexivity).
+           rewrite <- (app_assoc (A ++ [47; 46])). rewrite nskipn_app_len.
+           unfold s_ss in *. cbn [app starts_with] in *. replace (47 =? 47) with true in * by reflexivity. cbn [andb] in *.
+           destruct body as [|b0 b']; [discriminate|]. cbn [app]. exact Ess.
+      * apply orb_true_iff. left. unfold nlen at 2. cbn [length]. lia.
+    + apply (wf_qf_generic (A ++ M) T q f).
+      * exact Eser.
+      * unfold noauth_url. cbn [path_start]. fold A M. rewrite nlen_app. reflexivity.
+      * unfold noauth_url. cbn [query_start]. unfold noauth_pre. fold A M. rewrite <- !app_assoc. reflexivity.
+      * unfold noauth_url. cbn [fragment_start]. unfold noauth_pre. fold A M. rewrite <- !app_assoc. reflexivity.
+      * apply path_text_no_qh; assumption.
+      * exact nk_q0.
+  - unfold cannot_be_a_base, u_slice_from, noauth_url. cbn [ser scheme_end].
+    replace (nlen sch + 1) with (nlen A) by lia. unfold noauth_ser, noauth_pre. fold A M. rewrite <- !app_assoc.
+    rewrite slice_from_o_some by (rewrite !nlen_app; lia). rewrite nskipn_app_len. cbn [bindo]. rewrite Hsl. reflexivity.
+  - assert (ascii A) as HA.
+    { unfold A. apply ascii_app. split; [|constructor; [unfold is_ascii; lia | constructor]].
+      apply Forall_forall. intros c Hc. rewrite forallb_forall in Hall. specialize (Hall c Hc).
+      unfold scheme_out_char, is_lower, is_digit, is_ascii in *. lia. }
+    assert (ascii M) as HM.
+    { unfold M, marker_of. destruct (starts_with s_ss T); repeat constructor; unfold is_ascii; lia. }
+    assert (ascii (segs_text segs)) as HS.
+    { clear - nk_segs0. induction segs as [|s segs IH]; [constructor|].
+      cbn [forallb] in nk_segs0. apply andb_true_iff in nk_segs0. destruct nk_segs0 as [H1 H2].
+      unfold segs_text. cbn [map concat]. fold (segs_text segs).
+      apply ascii_app. split; [apply ascii_app; split|].
+      - destruct (good_seg_parts s H1) as (Hc & _). apply (clean_ascii T_PATH). exact Hc.
+      - constructor; [unfold is_ascii; lia | constructor].
+      - exact (IH H2). }
+    assert (ascii T) as HT.
+    { rewrite ET. constructor; [unfold is_ascii; lia|]. unfold body. apply ascii_app. split; [exact HS|].
+      destruct (good_seg_parts last nk_last0) as (Hc & _). apply (clean_ascii T_PATH). exact Hc. }
+    assert (ascii (qf_text q f)) as HQ.
+    { unfold qf_text. apply ascii_app. split.
+      - destruct q as [x|]; [|constructor]. cbn [qf_qtext]. constructor; [unfold is_ascii; lia|].
+        apply (clean_ascii T_QUERY). exact nk_q0.
+      - destruct f as [y|]; [|constructor]. cbn [qf_ftext]. constructor; [unfold is_ascii; lia|].
+        apply (clean_ascii T_FRAGMENT). exact nk_f0. }
+    rewrite Eser. apply ascii_app. split; [|exact HQ]. apply ascii_app. split; [|exact HT].
+    apply ascii_app. split; assumption.
+Qed.
